@@ -1,2 +1,4 @@
 ; text carried by a lexer token (ybase.Token.Value): a fixed function of the token
 (declare-fun tokenValue (Iface) String)
+; canonical decimal rendering of a non-negative integer (fmt %d / %v of an unsigned value)
+(declare-fun dec (Int) String)
